@@ -145,9 +145,13 @@ func runC16(c *ev.Ctx) {
 		if len(bits)%8 == 0 {
 			data = gen.Pack(bits)
 		}
+		randomLike := sq.Fam == "uniform" || sq.Fam == "balanced" || sq.Fam == "bias" || sq.Fam == "markov" || sq.Fam == "lfsr"
 		for _, s := range allSpecs(len(bits), len(bits) <= 1000000) {
 			if s.needsBytes() && data == nil {
 				continue
+			}
+			if !c.Thorough() && s.T == "lc" && len(bits) >= 1000000 && (randomLike || s.P != 500) {
+				continue // quick: 10^6-bit linear complexity on high-complexity content costs seconds per call (C04 covers it)
 			}
 			var v []float64
 			c.Count("calls_"+s.T, 1)
@@ -219,7 +223,7 @@ func passBoundarySweep(c *ev.Ctx, seed uint64) {
 	}
 	parallelN(15, 15, func(k int) {
 		// sizes chosen so that the runner's P-value is not confined to a handful of discrete values
-		nbytes := map[int]int{2: 2500, 9: 12500, 12: 12500, 13: 5000, 14: 2500}[k]
+		nbytes := map[int]int{2: 2500, 9: 12500, 12: 2500, 13: 5000, 14: 2500}[k]
 		if nbytes == 0 {
 			nbytes = 128
 		}
